@@ -1047,8 +1047,8 @@ impl EcmaRegexValidator {
       // TODO: convert unicode code point to char
       cp = Some((self.last_int_value as u32).into());
     } else if force_u_flag
-      && is_lead_surrogate(cp.unwrap().to_i64())
-      && is_trail_surrogate(cp1.unwrap().to_i64())
+      && cp.is_some_and(|c| is_lead_surrogate(c.to_i64()))
+      && cp1.is_some_and(|c| is_trail_surrogate(c.to_i64()))
     {
       cp = Some(UnicodeChar::from(combine_surrogate_pair(
         cp.unwrap().to_i64(),
